@@ -1276,15 +1276,23 @@ impl ReManager {
             // epsilon . R --> R
             (BaseRegLan::Epsilon, _) => e2,
             (_, BaseRegLan::Epsilon) => e1,
+            // the loops are merged only if the new bounds fit in 32 bits: otherwise the
+            // concatenation is kept as it is (derivatives of loops with very large bounds get here)
             // R . R^[i,j] --> R^[i+1, j+1]
-            (_, BaseRegLan::Loop(y, rng)) if *e1 == **y => {
+            (_, BaseRegLan::Loop(y, rng))
+                if *e1 == **y && rng.checked_add(&LoopRange::point(1)).is_some() =>
+            {
                 self.make(BaseRegLan::Loop(e1, rng.add_point(1)))
             }
-            (BaseRegLan::Loop(x, rng), _) if *e2 == **x => {
+            (BaseRegLan::Loop(x, rng), _)
+                if *e2 == **x && rng.checked_add(&LoopRange::point(1)).is_some() =>
+            {
                 self.make(BaseRegLan::Loop(e2, rng.add_point(1)))
             }
             // R^[a,b] . R^[b,c] -> R^[a+b, b+c]
-            (BaseRegLan::Loop(x, x_rng), BaseRegLan::Loop(y, y_rng)) if *x == *y => {
+            (BaseRegLan::Loop(x, x_rng), BaseRegLan::Loop(y, y_rng))
+                if *x == *y && x_rng.checked_add(y_rng).is_some() =>
+            {
                 self.make(BaseRegLan::Loop(x, x_rng.add(y_rng)))
             }
             // R . R -> R^2
@@ -1376,7 +1384,8 @@ impl ReManager {
                 // epsilon ^ [i, j] --> epsilon
                 BaseRegLan::Epsilon => self.epsilon,
                 // (R ^[i,j]) ^ [k, l] --> R ^[i *k, j*l] if the product is exact
-                BaseRegLan::Loop(x, x_rng) if x_rng.right_mul_is_exact(&range) => {
+                // (and fits in 32 bits: otherwise the nested loop is kept)
+                BaseRegLan::Loop(x, x_rng) if x_rng.checked_exact_mul(&range).is_some() => {
                     self.make(BaseRegLan::Loop(x, x_rng.mul(&range)))
                 }
                 _ => self.make(BaseRegLan::Loop(e, range)),
